@@ -167,6 +167,18 @@ theorem opEnableUser_cases (n : Net) (y : Nat) (u : String) :
       · exact Or.inr rfl
       · exact Or.inl rfl
 
+theorem opAddUserBypass_cases (n : Net) (y : Nat) (u p : String) (adm : Bool) :
+    (opAddUserBypass n y u p adm).1 = n ∨
+    ∃ nd, n.node y = some nd ∧ nd.findUser u = none ∧
+      (opAddUserBypass n y u p adm).1 = n.upd y (Node.addUser { name := u, password := p, admin := adm }) := by
+  unfold opAddUserBypass
+  split
+  · exact Or.inl rfl
+  · rename_i nd hnd
+    split
+    · rename_i h; exact Or.inr ⟨nd, hnd, by simpa using h, rfl⟩
+    · exact Or.inl rfl
+
 theorem opUsmLogin_cases (n : Net) (y : Nat) (u p : String) (peer : Nat) :
     ((opUsmLogin n y u p peer).1 = n ∧ (opUsmLogin n y u p peer).2 ≠ .success) ∨
     ∃ b, n.node y = some b ∧ b.isOn = true ∧ b.loginOk u p = true ∧ b.rem.length < b.maxRemote ∧
@@ -398,6 +410,12 @@ theorem Pre.enableUser (F : Pre R) (n : Net) (y : Nat) (u : String) (h : ∀ a, 
   · exact F.rel_refl n
   · exact F.rel_upd (F.rel_refl n) y _ h
 
+theorem Pre.addUserBypass (F : Pre R) (n : Net) (y : Nat) (u p : String) (adm : Bool)
+    (h : ∀ a w, R y a (a.addUser w)) : Net.Rel R n (opAddUserBypass n y u p adm).1 := by
+  rcases opAddUserBypass_cases n y u p adm with h0 | ⟨nd, _, _, h0⟩ <;> rw [h0]
+  · exact F.rel_refl n
+  · exact F.rel_upd (F.rel_refl n) y _ (fun a => h a _)
+
 theorem Pre.usmLogin (F : Pre R) (n : Net) (y : Nat) (u p : String) (peer : Nat) (h : ∀ a s, R y a (a.addSession s)) :
     Net.Rel R n (opUsmLogin n y u p peer).1 := by
   rcases opUsmLogin_cases n y u p peer with ⟨h0, _⟩ | ⟨b, _, _, _, _, h0, _⟩ <;> rw [h0]
@@ -539,6 +557,7 @@ theorem Frame.step (F : Frame R) (E : Edits R)
   cases op with
   | req y c => exact F.exec E hD c (fun _ => hL) hS hF n y
   | enableUser y u => exact F.toPre.enableUser n y u (fun a => hEn y a u)
+  | addUserBypass y u p adm => exact F.toPre.addUserBypass n y u p adm (E.addUser y)
   | localLogin y u p => simp only [Primaite.Session.step]; rw [opLocalLogin_fst]; exact hL n y u p
   | localLogout y => exact F.localLogout n y
   | tick => exact F.tick n
